@@ -34,7 +34,7 @@ PROPS = {
         'not_decided': 'that each lowering is the right cone',
     },
     'C07': {
-        'rules': ['R15', 'R33', 'R06'],
+        'rules': ['R15', 'R33', 'R06', 'R36'],
         'decided': 'integrality vector aligned with columns under every call history; '
                    'formulation-time variables are continuous; weight bookkeeping of the power-cone '
                    'tower (padding to a power of two exactly once, children of split() sum to half the '
@@ -90,14 +90,14 @@ PROPS = {
         'not_decided': 'each solver\'s sign convention, complementary slackness',
     },
     'C15': {
-        'rules': ['R12', 'R13', 'R08', 'R28', 'R34'],
+        'rules': ['R12', 'R13', 'R08', 'R28', 'R34', 'R29'],
         'decided': '>= is the mirror of <=; reflected operators; equality == two inequalities '
                    'including the attached set; bounds intersect in any order; the values of a bound '
                    'are broadcast, never recycled',
         'not_decided': 'value-level metamorphic relations',
     },
     'C16': {
-        'rules': ['R21'],
+        'rules': ['R21', 'R36'],
         'decided': 'exports read every formula field; General/Binary sections selected by the matching '
                    'vtype letter; sense codes agree; a leading sign is only stripped when it is a plus',
         'not_decided': 'number formatting, parse-back equality',
@@ -123,7 +123,7 @@ PROPS = {
         'not_decided': 'bit-identical numerics across processes',
     },
     'C05': {
-        'rules': ['R24', 'R03', 'R34'],
+        'rules': ['R24', 'R03', 'R34', 'R36'],
         'decided': 'shape law for the constant part of Affine/RoAffine results; operations build new '
                    'objects and never edit their operands in place (NumPy semantics), including through '
                    'shared sparse buffers (x + 0, csr_matrix(x.linear)); bound objects keep index order and '
